@@ -41,6 +41,7 @@ fn main() {
         "C14U" => c14::run_clusters(seed, tier, &mut out),
         "C15" => c15::run(seed, tier, &mut out),
         "C16" => c16::run(seed, tier, &mut out),
+        "C16C" => c16::run_concurrent(seed, tier, &mut out),
         "C12" => c12::run(seed, tier, &mut out),
         "C12W" => c12::run_wide(seed, tier, &mut out),
         "C09" => c09::run(seed, tier, &mut out),
